@@ -114,7 +114,7 @@ TRUSTED = [
     "accounted_once for an abstract element (only its recording-element instance)",
     "initContract, mkFillRequest and the Python ref_init are three readings of one docstring by the same author",
     "itertools.islice / itertools.chain semantics on iterators, and Python generator objects (body runs when iterated), as "
-    "transcribed (validated likewise; the adapter that keeps generator objects against a Python subclass of the real FillRequest)",
+    "transcribed (validated likewise; the adapter that keeps generator objects against the real FillRequest around an element that hands out its generator objects)",
     "JSON line protocol encoders (harness/props/c16.py, drivers/C16.lean)",
 ]
 ASSUMPTIONS = [
@@ -133,8 +133,23 @@ ASSUMPTIONS = [
     "el.request() in the middle of its results is not modelled",
     "a Run element may read only part of its block (Model/C16P.lean transcribes _run_run as fixed by dbe92ef, "
     "notes/C16_defect_1.md; the transcription of the code before the fix is kept, pinned, for the counterexamples)",
-    "internal attributes _n_count, _buffer_in, _buffer_out are compared (their sizes): the property names them under "
-    "observe_at and its last clause is about them; a rewrite that renames them needs _sizes() in the harness adapted",
+    "the state the property anchors in _n_count / _buffer_in / _buffer_out ('fills since the element was last emptied', "
+    "'values or results held past a full block') is OBSERVED THROUGH THE PUBLIC INTERFACE (class _Watch): the wrapped "
+    "element is the harness's own and counts the fills it is offered, those it accepted since its request/compute was last "
+    "called and the results it yielded; the harness counts the values it hands to the adapter and the results that come "
+    "out: count = accepted fills since the element's last request, held values = handed in - offered, held results = "
+    "yielded by the element - come out (for a FillRequestSeq: counted at the harness's own elements before / after the "
+    "adapter). These numbers are what the trace compared with the model holds and what the oracle's clauses 'accounted "
+    "exactly once' / 'at most one block buffered' are evaluated on. The private attributes themselves are read only "
+    "defensively (getattr with default; a missing name, e.g. after a consistent rename, skips that observation): whether "
+    "they could be read and agreed with the public observation is recorded per case in the histogram (labels "
+    "anchors:...:equal / absent / differ, split:types-anchor:...) and is never a failure. The harness calls no private "
+    "method and reads no other private attribute of a lena object; the generator-keeping reference adapter is the real "
+    "FillRequest around an element whose request returns [generator object], driven by a caller that iterates each "
+    "object before asking for the next",
+    "a request() that ends with LenaStopFill (buffer_input, raising element) gives up the values it had taken from its "
+    "buffer and not yet offered to the element: the observation counts them as no longer held from that moment (as the "
+    "model does); an implementation that offered them later would show a negative number of held values",
     "a mutable wrapped element is a state threaded through fill/request/reset/run; flow values are opaque to the adapter "
     "(generated: None, equal values, (data, context) pairs, strings, floats) and to the model (codes)",
     "'every call returns in finite time' is NOT a theorem: every Lean definition is total, so totality says only that the "
@@ -293,7 +308,7 @@ def enc(case, r):
 
 
 def make_el(kind, k, mut, has_reset, caps=None, stop=None, stores=False, kpar=False, names=False, readj=None,
-            alias=False, codef=None):
+            alias=False, codef=None, lazy=False):
     """An element whose fill appends to a list v; request/compute/run yield [j]+v for j<k and then
     (mut) append -1 to v; kind 'map': run yields [x+100] per value and keeps no state.
     stop: fill raises LenaStopFill for every value >= stop (after storing it if `stores`).
@@ -305,24 +320,43 @@ def make_el(kind, k, mut, has_reset, caps=None, stop=None, stores=False, kpar=Fa
     request/compute/run are generator functions: their bodies run when they are iterated."""
     e = _E()
     e.v = _Live() if alias else []
+    # what the element sees of its caller (the public-interface observation of the adapter's state, see _Watch):
+    # att: calls of fill; since: fills accepted since request/compute was last called; made: results yielded by
+    # request/compute (for the lazy variant: generator objects handed out)
+    e.obs = obs = {"att": 0, "since": 0, "made": 0}
 
     def fill(x):
+        obs["att"] += 1
         if stop is not None and x >= stop:
             if stores:
                 e.v.append(x)
             import lena.core
             raise lena.core.LenaStopFill()
         e.v.append(x)
+        obs["since"] += 1
 
-    def gen():
+    def gen(count=False):
         if alias:
+            if count:
+                obs["made"] += 1
             yield e.v
             return
         kk = (k if sum((codef(x) if codef else x) for x in e.v) % 2 == 1 else 0) if kpar else k
         for j in range(kk):
+            if count:
+                obs["made"] += 1
             yield [j] + list(e.v)
         if mut:
             e.v.append(-1)
+
+    def req():
+        """request / compute as the adapter calls it (run of the element calls gen itself)"""
+        obs["since"] = 0
+        if lazy:
+            # the element of the generator-keeping reference adapter: ONE result, the generator object itself
+            obs["made"] += 1
+            return [gen()]
+        return gen(True)
 
     def other():
         yield [-7]
@@ -360,9 +394,9 @@ def make_el(kind, k, mut, has_reset, caps=None, stop=None, stores=False, kpar=Fa
     if c[1]:
         setattr(e, "put" if names else "fill", fill)
     if c[2]:
-        setattr(e, "get" if names else "request", gen)
+        setattr(e, "get" if names else "request", req)
     if c[3]:
-        e.compute = other if c[2] else gen
+        e.compute = other if c[2] else req
     if c[4]:
         setattr(e, "clear" if names else "reset", reset)
     if names:
@@ -396,20 +430,31 @@ class _PreMulti(object):
     multiples of 3, x+10 and x+20 for other odd values, x+10 otherwise (FillInto._run_fill_into)"""
     _can_break_flow = True
 
+    def __init__(self, io=None):
+        self.io = io if io is not None else {"in": 0, "out": 0}
+
     def run(self, flow):
+        io = self.io
         for x in flow:
             if x % 3 == 0:
                 continue
+            io["in"] += 1
             yield x + 10
             if x % 2 == 1:
+                io["in"] += 1
                 yield x + 20
 
 
 class _PostMulti(object):
     """a Run element after the FillRequest element: two results per result"""
 
+    def __init__(self, io=None):
+        self.io = io if io is not None else {"in": 0, "out": 0}
+
     def run(self, flow):
+        io = self.io
         for r in flow:
+            io["out"] += 1
             yield r + [99]
             yield r + [98]
 
@@ -435,35 +480,78 @@ def post_ref(code, r):
     return [r + [99], r + [98]]
 
 
-def _lazy_adapter_class():
-    """Python reference for `Eval.atRequest` of Model/C16X.lean: the real FillRequest, except that fill() stores the
-    generator object of the element in _buffer_out and request() chains the stored objects (the change of seeded/C16-C).
-    Used only to validate the model's account of generator objects against real Python generators."""
-    import lena.core
+# ---- the adapter that keeps generator objects (reference for `Eval.atRequest` of Model/C16X.lean) -----------------
+# fill() stores the generator object of the element's request in the output buffer instead of its results, and
+# request() iterates the stored objects in turn (the change of seeded/C16-C).  It is obtained through the public
+# interface only: the REAL FillRequest around an element whose request()/compute() returns the one-element list
+# [generator object] (make_el(..., lazy=True)) — so `extend(el.request())` keeps the object, `for val in
+# el.request(): yield val` hands it out — and a caller that iterates each object handed out by request() before it
+# asks for the next one (`_lazy_request`): the element's generator bodies run at exactly the moments they run in an
+# adapter that chains the kept generator objects.  Used only to validate the model's account of generator objects
+# against real Python generators.
 
-    class LazyFillRequest(lena.core.FillRequest):
-        def fill(self, value):
-            if self._n_count == self.bufsize:
-                if self._buffer_input:
-                    self._buffer_in.append(value)
-                    return
-                self._buffer_out.append(self._el_request())
-                if self._reset:
-                    self._el_reset()
-                self._n_count = 0
-            self._el_fill(value)
-            self._n_count += 1
+def _lazy_request(fr, watch):
+    for g in fr.request():
+        watch.left += 1
+        for v in g:
+            yield v
 
-        def request(self):
-            if not self._buffer_input:
-                buffer_out = self._buffer_out
-                self._buffer_out = []
-                for val in itertools.chain.from_iterable(buffer_out):
-                    yield val
-            for val in lena.core.FillRequest.request(self):
-                yield val
 
-    return LazyFillRequest
+class _Watch(object):
+    """The state of an adapter under fill()/request() as it can be seen from outside (public interface only): the
+    wrapped element is the harness's own and counts what it receives (make_el: e.obs), the harness counts what it
+    hands to the adapter and what comes out of it.
+      count   = fills the element accepted since its request/compute was last called      (the property's `_n_count`)
+      held_in = values handed to the adapter - values offered to the element               (len of `_buffer_in`)
+      held_out= results the element yielded - results that came out of the adapter         (len of `_buffer_out`)
+    A request() that ends with LenaStopFill gives up the values it had taken and not offered yet (`forfeit`; an
+    implementation that offered them later would show a negative held_in).  These are equal to the private counters
+    on the code of /repo (checked defensively by `_anchors`), and unlike them they survive any rewrite that keeps the
+    behaviour."""
+
+    def __init__(self, el):
+        self.el, self.given, self.left, self.forfeited = el, 0, 0, 0
+
+    def sizes(self):
+        if self.el is None:
+            return [0, 0, 0]        # a raw fill/request element: no adapter on the path
+        o = self.el.obs
+        return [o["since"], self.given - o["att"] - self.forfeited, o["made"] - self.left]
+
+    def forfeit(self):
+        if self.el is not None:
+            self.forfeited = self.given - self.el.obs["att"]
+
+
+_ANCHOR_NAMES = ("_n_count", "_buffer_in", "_buffer_out")
+
+
+def _anchors(fr, sizes, seen):
+    """The state anchors the property names (private attributes _n_count, _buffer_in, _buffer_out of the adapter),
+    read DEFENSIVELY next to the public observation `sizes`: "absent" if the counter cannot be read under that
+    name, else whether the sizes agree.  Only recorded (classify: label `anchors:...`), never a failure: a rewrite
+    may rename or re-purpose private attributes without changing behaviour."""
+    if seen.get("a") in ("absent", "differ"):
+        return
+    try:
+        cnt, bin_, bout = (getattr(fr, nm, None) for nm in _ANCHOR_NAMES)
+        if cnt is None or (bin_ is None and bout is None):
+            seen["a"] = "absent"
+            return
+        priv = [int(cnt), len(bin_ or ()), len(bout or ())]
+        seen["a"] = "equal" if priv == list(sizes) else "differ"
+    except Exception:
+        seen["a"] = "absent"
+
+
+# the objects built for the case that is running: id(adapter or sequence) -> (object, wrapped test element | None,
+# contained adapter | None, counters of the elements before/after | None)
+_BUILT = {}
+
+
+def _built(obj, el, inner=None, io=None):
+    _BUILT[id(obj)] = (obj, el, inner, io)
+    return obj
 
 
 def make_adapter(case):
@@ -484,9 +572,9 @@ def make_adapter(case):
         return lena.core.FillRequestSeq(*args, **_kw(case))
     el = make_el(kind, case["k"], case["mut"], case["hr"], stop=case.get("stop"), stores=bool(case.get("stores")),
                  kpar=bool(case.get("kpar")), names=bool(case.get("names")), readj=case.get("j"),
-                 alias=bool(case.get("alias")), codef=_code_of if case.get("vals") is not None else None)
-    cls = _lazy_adapter_class() if case.get("ev") == "request" else lena.core.FillRequest
-    return cls(el, **_kw(case))
+                 alias=bool(case.get("alias")), codef=_code_of if case.get("vals") is not None else None,
+                 lazy=case.get("ev") == "request")
+    return _built(lena.core.FillRequest(el, **_kw(case)), el)
 
 
 def make_inner(case):
@@ -494,10 +582,10 @@ def make_inner(case):
     arguments of the case are ITS arguments), or — "inner": "raw" — the raw fill/request test element"""
     import lena.core
     if case.get("inner") == "raw":
-        return make_el("fr", case["k"], case["mut"], True, kpar=bool(case.get("kpar")))
+        return _built(make_el("fr", case["k"], case["mut"], True, kpar=bool(case.get("kpar"))), None)
     el = make_el(case["kind"], case["k"], case["mut"], case["hr"], kpar=bool(case.get("kpar")),
                  names=bool(case.get("names")))
-    return lena.core.FillRequest(el, **_kw(case))
+    return _built(lena.core.FillRequest(el, **_kw(case)), el)
 
 
 def _okw(case):
@@ -515,12 +603,23 @@ def make_seq(case):
     import lena.core
     pre, post = _code(case.get("pre")), _code(case.get("post"))
     args = []
+    io = {"in": 0, "out": 0}        # values the element before hands on / results the element after receives
+
+    def f(x):
+        io["in"] += 1
+        return x + 10
+
+    def g(r):
+        io["out"] += 1
+        return r + [99]
+
     if pre:
-        args.append((lambda x: x + 10) if pre == 1 else _PreMulti())
-    args.append(make_inner(case))
+        args.append(f if pre == 1 else _PreMulti(io))
+    inner = make_inner(case)
+    args.append(inner)
     if post:
-        args.append((lambda r: r + [99]) if post == 1 else _PostMulti())
-    return lena.core.FillRequestSeq(*args, **_okw(case))
+        args.append(g if post == 1 else _PostMulti(io))
+    return _built(lena.core.FillRequestSeq(*args, **_okw(case)), _BUILT[id(inner)][1], inner, io)
 
 
 def _seq_passes(case):
@@ -538,26 +637,44 @@ def _seq_passes(case):
 
 
 def _run_seqops(case, seq):
-    def sizes():
-        fr = seq._fill_request
-        return _sizes(fr) if hasattr(fr, "_n_count") else [0, 0, 0]
+    # public-interface observation of the contained adapter (see _Watch): what is handed to it is what the element
+    # before it hands on (or, without one, what the sequence is filled with / takes from the flow of run); what
+    # leaves it is what the element after it receives (or, without one, what the sequence yields)
+    _, el, inner, io = _BUILT[id(seq)]
+    pre, post = _code(case.get("pre")), _code(case.get("post"))
+    watch = _Watch(el)
+    seen = {}
+
+    def sizes(nin, nout):
+        watch.given = io["in"] if pre else watch.given + nin
+        watch.left = io["out"] if post else watch.left + nout
+        sz = watch.sizes()
+        if el is not None:
+            _anchors(inner, sz, seen)
+        return sz
 
     def history(ops):
         trace = []
         for o in ops:
             if o is None:
                 out = [r for r in seq.request()]
-                trace.append([out] + sizes())
+                trace.append([out] + sizes(0, len(out)))
             else:
                 seq.fill(o)
-                trace.append([None] + sizes())
+                trace.append([None] + sizes(1, 0))
         return trace
+
+    def run(xs):
+        src = _Counting(xs)
+        out = list(seq.run(src))
+        sizes(src.taken, len(out))
+        return out
 
     xs0, ops, ops2, xs2, xs = _seq_passes(case)
     res, phase = {}, "run0"
     try:
         if xs0 is not None:
-            res["r0"] = list(seq.run(iter(xs0)))
+            res["r0"] = run(xs0)
         phase = "ops"
         res["t"] = history(ops)
         if ops2 is not None:
@@ -565,7 +682,7 @@ def _run_seqops(case, seq):
             res["t2"] = history(ops2)
         if xs2 is not None:
             phase = "run2"
-            res["r2"] = list(seq.run(iter(xs2)))
+            res["r2"] = run(xs2)
         # "those of run on the whole flow": fresh, identically built objects — the whole sequence, and the contained
         # adapter alone on what the preceding elements make of the flow (its results through the following elements)
         phase = "run of a fresh sequence"
@@ -578,7 +695,8 @@ def _run_seqops(case, seq):
         else:
             res["runinner"] = None
     except Exception as e:
-        return dict(res, e=exc_name(e), phase=phase)
+        return dict(res, e=exc_name(e), phase=phase, anchors=seen.get("a"))
+    res["anchors"] = seen.get("a")
     return res
 
 
@@ -597,10 +715,6 @@ def _ops_of(case):
         ops.append(flow[j])
     ops.append(None)
     return ops
-
-
-def _sizes(fr):
-    return [fr._n_count, len(getattr(fr, "_buffer_in", ())), len(getattr(fr, "_buffer_out", ()))]
 
 
 # ---- guards for a non-terminating implementation ------------------------------------------------
@@ -875,6 +989,21 @@ def sibx_types(case):
             + [kinds[d.partition(":")[0]] for d in case.get("after", [])])
 
 
+def _split_types(s, branches):
+    """How Split classified its branches.  Public observation: a Split whose branches are all fill/request branches
+    offers fill and request itself (and no compute); with branches of several types the classification shows only
+    in the results.  The list Split keeps (private `_seq_types`) is read defensively: None if it cannot be read."""
+    pub = None
+    if branches is None or len(branches) == 1:
+        pub = ["fill_request" if callable(getattr(s, "fill", None)) and callable(getattr(s, "request", None))
+               and not callable(getattr(s, "compute", None)) else "other"]
+    try:
+        priv = [str(t) for t in getattr(s, "_seq_types")]
+    except Exception:
+        priv = None
+    return {"pub": pub, "priv": priv}
+
+
 def _init_arg(v):
     """init cases carry reset / buffer flags as JSON: null, true, false, or {"obj": 0|1|"yes"|...} for a non-bool"""
     return v["obj"] if isinstance(v, dict) else v
@@ -883,6 +1012,7 @@ def _init_arg(v):
 def _run_impl(case):
     import lena.core
     op = case["op"]
+    _BUILT.clear()
     if op == "init":
         el = make_el("x", 1, False, False, caps=case["caps"])
         if case.get("run_attr"):
@@ -934,17 +1064,26 @@ def _run_impl(case):
             return {"e": exc_name(e), "phase": "run"}
     if op == "ops":
         trace = []
+        watch, seen = _Watch(_BUILT[id(fr)][1]), {}
+
+        def sizes():
+            sz = watch.sizes()
+            _anchors(fr, sz, seen)
+            return sz
+
         try:
             for o in _ops_of(case):
                 if o is None:
                     out = [enc(case, r) for r in fr.request()]
-                    trace.append([out] + _sizes(fr))
+                    watch.left += len(out)
+                    trace.append([out] + sizes())
                 else:
+                    watch.given += 1
                     fr.fill(py_flow(case, [o])[0])
-                    trace.append([None] + _sizes(fr))
+                    trace.append([None] + sizes())
         except Exception as e:
             return {"e": exc_name(e), "phase": "ops", "t": trace}
-        res = {"t": trace}
+        res = {"t": trace, "anchors": seen.get("a")}
         try:
             res["run"] = [enc(case, r) for r in make_adapter(case).run(iter(flow))]
             if flow2 is not None:
@@ -956,23 +1095,35 @@ def _run_impl(case):
     if op == "opsx":
         # a caller that catches LenaStopFill (as Split does around fill) and goes on; "r": FillRequest.reset()
         trace = []
+        watch, seen = _Watch(_BUILT[id(fr)][1]), {}
+        lazy = case.get("ev") == "request"
         for o in case["ops"]:
             raised, out = False, None
             try:
                 if o is None:
                     out = []
-                    for v in fr.request():
-                        out.append(v)
+                    if lazy:
+                        for v in _lazy_request(fr, watch):
+                            out.append(v)
+                    else:
+                        for v in fr.request():
+                            watch.left += 1
+                            out.append(v)
                 elif o == "r":
                     fr.reset()
                 else:
+                    watch.given += 1
                     fr.fill(o)
             except lena.core.LenaStopFill:
                 raised = True
+                if o is None:
+                    watch.forfeit()
             except Exception as e:
                 return {"e": exc_name(e), "phase": "opsx", "t": trace}
-            trace.append([out, raised] + _sizes(fr))
-        return {"t": trace}
+            sz = watch.sizes()
+            _anchors(fr, sz, seen)
+            trace.append([out, raised] + sz)
+        return {"t": trace, "anchors": seen.get("a")}
     if op in ("splitx", "runx"):
         out, raised = [], False
         try:
@@ -1034,7 +1185,7 @@ def _run_impl(case):
             return {"e": exc_name(e), "phase": "split-init"}
         mine = (lambda r: isinstance(r, list)) if branches is not None else (lambda r: True)
         try:
-            res = {"r": [enc(case, r) for r in s.run(iter(flow)) if mine(r)], "types": list(s._seq_types)}
+            res = {"r": [enc(case, r) for r in s.run(iter(flow)) if mine(r)], "types": _split_types(s, branches)}
             if flow2 is not None:
                 # the same Split object (and adapter) runs a second flow
                 res["r2"] = [enc(case, r) for r in s.run(iter(flow2)) if mine(r)]
@@ -1342,8 +1493,12 @@ def oracle(case, res):
     if op == "split":
         types = (["sequence", "fill_request", "fill_compute"] if case.get("form") == "sib" else
                  sibx_types(case) if case.get("form") == "sibx" else ["fill_request"])
-        if res.get("types") != types:
-            return f"Split classified the branches as {res.get('types')}"
+        seen = res.get("types") or {}
+        if seen.get("pub") is not None and seen["pub"] != types:
+            return (f"Split around one fill/request branch does not offer fill and request (and no compute) itself: "
+                    f"its branch is not taken as {types}")
+        # (the private list `_seq_types`, when it can be read under that name, is only recorded — classify: label
+        # `split:types-anchor:...`; a wrong classification of the branch under test shows in the results below)
         outs = res["r"]
         if case.get("form") == "seq3":
             # (f, FillRequest(...), g): the adapter is filled with what f makes of the values; its blocks are blocks of
@@ -1496,20 +1651,20 @@ def _oracle_seqops(case, res):
         if o is None:
             outs.extend(out)
             if lin or lout:
-                return f"{desc}: buffers not empty after request(): _buffer_in {lin}, _buffer_out {lout} (trace {trace})"
+                return f"{desc}: something is still held after request(): {lin} values handed in and not offered to the element, {lout} results of the element not handed out (trace {trace})"
             if (yor and cnt != 0) or (not yor and not cnt < n):
-                return f"{desc}: _n_count = {cnt} after request() (trace {trace})"
+                return f"{desc}: the element holds {cnt} values of an unfinished block after request() (trace {trace})"
             pend, since = cnt, 0
         else:
             since += len(pre_ref(pre, o))
             if cnt > n:
-                return f"{desc}: _n_count = {cnt} exceeds bufsize {n} (trace {trace})"
+                return f"{desc}: the element was filled {cnt} times since its last request: exceeds bufsize {n} (trace {trace})"
             if lin > since:
-                return f"{desc}: _buffer_in holds {lin} values after {since} fills since the last request (trace {trace})"
+                return f"{desc}: {lin} values are held back (handed in, not offered to the element) after {since} fills since the last request (trace {trace})"
             if lout > k * ((pend + since) // n):
-                return f"{desc}: _buffer_out holds {lout} results after {since} fills since the last request (trace {trace})"
+                return f"{desc}: {lout} results of the element are held back after {since} fills since the last request (trace {trace})"
             if not case.get("kpar") and cnt + lin != pend + since - n * (lout // k if k else 0):
-                return (f"{desc}: values not accounted: _n_count {cnt} + buffered {lin} after {pend}+{since} values "
+                return (f"{desc}: values not accounted: {cnt} in the element since its last request + {lin} held back after {pend}+{since} values "
                         f"(trace {trace})")
     sched = [i for i, o in enumerate(allops) if o is None]
     ref = ref_seq_history(case, allops)
@@ -1542,12 +1697,12 @@ def _oracle_opsx(case, res):
     ops, trace = case["ops"], _Short(res["t"])
     for o, (out, raised, cnt, lin, lout) in zip(ops, trace):
         if cnt > n:
-            return f"_n_count = {cnt} exceeds bufsize {n} (trace {trace})"
+            return f"the element was filled {cnt} times since its last request: exceeds bufsize {n} (trace {trace})"
         if o is None and not raised:
             if lin or lout:
-                return f"buffers not empty after request(): _buffer_in {lin}, _buffer_out {lout} (trace {trace})"
+                return f"something is still held after request(): {lin} values handed in and not offered to the element, {lout} results of the element not handed out (trace {trace})"
             if (yor and cnt != 0) or (not yor and not cnt < n):
-                return f"_n_count = {cnt} after request() (bufsize {n}, yield_on_remainder {yor}; trace {trace})"
+                return f"the element holds {cnt} values of an unfinished block after request() (bufsize {n}, yield_on_remainder {yor}; trace {trace})"
         if raised and (o == "r" or case.get("stop") is None):
             return f"LenaStopFill from call {o!r} although the element never raises / from reset() (trace {trace})"
     if ops and ops[-1] is None:
@@ -1597,20 +1752,20 @@ def _oracle_ops(case, res, flow):
         if o is None:
             outs.extend(out)
             if lin or lout:
-                return f"buffers not empty after request(): _buffer_in {lin}, _buffer_out {lout} (trace {trace})"
+                return f"something is still held after request(): {lin} values handed in and not offered to the element, {lout} results of the element not handed out (trace {trace})"
             if (yor and cnt != 0) or (not yor and not cnt < n):
-                return f"_n_count = {cnt} after request() (bufsize {n}, yield_on_remainder {yor}; trace {trace})"
+                return f"the element holds {cnt} values of an unfinished block after request() (bufsize {n}, yield_on_remainder {yor}; trace {trace})"
             pend, since = cnt, 0
         else:
             since += 1
             if cnt > n:
-                return f"_n_count = {cnt} exceeds bufsize {n} (trace {trace})"
+                return f"the element was filled {cnt} times since its last request: exceeds bufsize {n} (trace {trace})"
             if lin > since:
-                return f"_buffer_in holds {lin} values after {since} fills since the last request (trace {trace})"
+                return f"{lin} values are held back (handed in, not offered to the element) after {since} fills since the last request (trace {trace})"
             if lout > k * ((pend + since) // n):
-                return f"_buffer_out holds {lout} results after {since} fills since the last request (trace {trace})"
+                return f"{lout} results of the element are held back after {since} fills since the last request (trace {trace})"
             if not case.get("kpar") and cnt + lin != pend + since - n * (lout // k if k else 0):
-                return f"values not accounted: _n_count {cnt} + buffered {lin} after {pend}+{since} values (trace {trace})"
+                return f"values not accounted: {cnt} in the element since its last request + {lin} held back after {pend}+{since} values (trace {trace})"
     if not yor:
         ref = ref_run(case, flow)
         if outs != ref:
@@ -2197,6 +2352,13 @@ def classify(case, res):
         labels.append(f"split:m={case['m']}:{case['form']}")
         if case["m"] is not None:
             labels.append("split:" + ("dividing" if case["m"] % case["bufsize"] == 0 else "not-dividing"))
+    if op in ("ops", "opsx", "seqops"):
+        # the private counters the property names as state anchors, read defensively next to the public observation
+        labels.append(f"anchors:{op}:_n_count/_buffer_*:" + str(res.get("anchors") or "not-read"))
+    if op == "split" and isinstance(res.get("types"), dict):
+        priv = res["types"].get("priv")
+        labels.append("split:types-anchor:" + ("absent" if priv is None else
+                                               "fill_request-found" if "fill_request" in priv else "differ"))
     if "e" in res:
         labels.append(f"{op}:error:{res['e']}")
     return labels
